@@ -1,32 +1,43 @@
 ----------------------------- MODULE BrowseSyn -----------------------------
 (***************************************************************************)
-(* Synthetic address space for C33: a small reference type hierarchy       *)
+(* Synthetic address space for C33.  Names starting with "X" live in a     *)
+(* second added namespace (ns 2), the other synthetic names in ns 1, ids   *)
+(* written "i=.." are real namespace-0 nodes: the reference type hierarchy  *)
+(* crosses a namespace boundary at every level.                            *)
 (*                                                                         *)
-(*        R0                R4 (unrelated)      RU (id without a node)     *)
-(*       /  \                                                              *)
-(*      R1   R2                                                            *)
-(*      |     \                                                            *)
-(*      R3    i=45 (the real HasSubtype type, hung below R2 so that both   *)
-(*                  branches of the deletion loop are reachable:          *)
-(*                  position 0 in Dfs(R2), position 3 in Dfs(R0))          *)
+(*    i=46 (ns0, HasProperty: a leaf of the standard hierarchy)            *)
+(*      |                                                                  *)
+(*      R0 (ns1)            R4 (ns1, unrelated)    RU (id without a node)  *)
+(*     /  \                                                                *)
+(*    R1   XR2 (ns2)                                                       *)
+(*    |      \                                                             *)
+(*   XR3     i=45 (ns0, the real HasSubtype type: position 0 in Dfs(XR2),  *)
+(*  (ns2)          position > 0 in Dfs(R0) -- both branches of the former  *)
+(*                 deletion loop)                                          *)
 (*                                                                         *)
-(* and three browsable nodes: A carries every (type, direction, class)     *)
-(* combination once, B a few references with duplicates, E none.  The Go   *)
-(* harness builds exactly this space in the real server from the SPACE row *)
-(* printed below.                                                          *)
+(* Browsable nodes: A (ns1) carries every (type, direction, class in       *)
+(* Object / Variable / Method) combination once; B (ns1) a few references   *)
+(* with duplicates and dangling targets; XC (ns2) one reference per node   *)
+(* class (all eight) in both directions; E none.  Targets live in both     *)
+(* namespaces.  The Go harness builds exactly this space in the real       *)
+(* server from the SPACE row printed below.                                *)
 (***************************************************************************)
 EXTENDS Browse
 
 HS == "i=45"
-SynTypeIds  == {"R0", "R1", "R2", "R3", "R4", HS}
+HP == "i=46"
+SynTypeIds  == {HP, "R0", "R1", "XR2", "XR3", "R4", HS}
 SynChildSeq == [t \in SynTypeIds |->
-                  CASE t = "R0" -> <<"R1", "R2">>
-                    [] t = "R1" -> <<"R3">>
-                    [] t = "R2" -> <<HS>>
-                    [] OTHER    -> <<>>]
-SynRefTypes == <<"R0", "R1", "R2", "R3", "R4", "RU">>       \* types used on references
+                  CASE t = HP    -> <<"R0">>
+                    [] t = "R0"  -> <<"R1", "XR2">>
+                    [] t = "R1"  -> <<"XR3">>
+                    [] t = "XR2" -> <<HS>>
+                    [] OTHER     -> <<>>]
+SynRefTypes == <<"R0", "R1", "XR2", "XR3", "R4", "RU">>      \* types used on A's references
 SynClasses  == <<1, 2, 4>>                                   \* Object, Variable, Method
-Target(c)   == CASE c = 1 -> "TObj" [] c = 2 -> "TVar" [] c = 4 -> "TMeth"
+AllClasses  == <<1, 2, 4, 8, 16, 32, 64, 128>>               \* + ObjectType, VariableType, ReferenceType, DataType, View
+Target(c)   == CASE c = 1 -> "TObj" [] c = 2 -> "XTVar" [] c = 4 -> "TMeth" [] c = 8 -> "XTOType"
+                 [] c = 16 -> "TVType" [] c = 32 -> "XTRType" [] c = 64 -> "TDType" [] c = 128 -> "XTView"
 
 \* A: cross product, 6 types x 2 directions x 3 classes = 36 references
 ARefs == [k \in 1..36 |->
@@ -34,18 +45,27 @@ ARefs == [k \in 1..36 |->
                 fi == ((k - 1) \div 3) % 2
                 ci == ((k - 1) % 3) + 1
             IN [t |-> SynRefTypes[ti], f |-> (fi = 0), c |-> SynClasses[ci], n |-> Target(SynClasses[ci])]]
-BRefs == << [t |-> "R3", f |-> TRUE,  c |-> 2, n |-> "TVar"],
-            [t |-> "R3", f |-> TRUE,  c |-> 2, n |-> "TVar"],      \* duplicate reference
-            [t |-> "R2", f |-> FALSE, c |-> 1, n |-> "TObj"],
-            [t |-> HS,   f |-> TRUE,  c |-> 1, n |-> "TObj"],
-            [t |-> "R0", f |-> TRUE,  c |-> 4, n |-> "TMeth"],
-            [t |-> "R1", f |-> TRUE,  c |-> 1, n |-> "TNone"],     \* target node does not exist
-            [t |-> "R1", f |-> FALSE, c |-> 2, n |-> "TNone"] >>
-SynNodeIds  == {"A", "B", "E"}
-SynNodeRefs == [nd \in SynNodeIds |-> CASE nd = "A" -> ARefs [] nd = "B" -> BRefs [] OTHER -> <<>>]
+BRefs == << [t |-> "XR3", f |-> TRUE,  c |-> 2, n |-> "XTVar"],
+            [t |-> "XR3", f |-> TRUE,  c |-> 2, n |-> "XTVar"],    \* duplicate reference
+            [t |-> "XR2", f |-> FALSE, c |-> 1, n |-> "TObj"],
+            [t |-> HS,    f |-> TRUE,  c |-> 1, n |-> "TObj"],
+            [t |-> HP,    f |-> TRUE,  c |-> 2, n |-> "XTVar"],
+            [t |-> "R0",  f |-> TRUE,  c |-> 4, n |-> "TMeth"],
+            [t |-> "R1",  f |-> TRUE,  c |-> 1, n |-> "TNone"],    \* target node does not exist
+            [t |-> "R1",  f |-> FALSE, c |-> 2, n |-> "XTNone"] >>
+\* XC: targets of every node class, types alternating between the two ends of the chain
+CRefs == [k \in 1..16 |->
+            LET ci == ((k - 1) % 8) + 1
+            IN [t |-> IF k % 2 = 0 THEN "XR3" ELSE "R0", f |-> (k <= 8), c |-> AllClasses[ci], n |-> Target(AllClasses[ci])]]
+SynNodeIds  == {"A", "B", "XC", "E"}
+SynNodeRefs == [nd \in SynNodeIds |-> CASE nd = "A" -> ARefs [] nd = "B" -> BRefs [] nd = "XC" -> CRefs [] OTHER -> <<>>]
 SynGhosts   == {"ghost", "ghostns"}            \* unknown node in a known namespace / unknown namespace
-SynQueryTypes == {"R0", "R1", "R2", "R3", "R4", "R5", "RU", HS}      \* R5 exists from phase 1 on
-SynClassBits  == {1, 2, 4, 8}
+SynQueryTypes == {HP, "R0", "R1", "XR2", "XR3", "R4", "XR5", "RU", HS}      \* XR5 exists from phase 1 on
+\* class masks of the queries (0 = {} = all)
+SynMasksQ   == {{}, {1}, {2}, {4}, {8, 16}, {32, 64, 128}, {1, 2}, {2, 4, 64}}
+SynMasksT   == SynMasksQ \cup {{8}, {16}, {32}, {64}, {128}, {1, 4}, {8, 16, 32}, {1, 2, 4, 8, 16, 32, 64, 128}}
+SynMasksDyn == {{}, {1}, {2, 16}, {4, 32, 64}}
+SynNoGhosts == {}
 
 ---------------------------------------------------------------------------
 (***************************************************************************)
@@ -73,18 +93,36 @@ AddRef(sp, nd, r) == [sp EXCEPT !.refs[nd] = Append(@, r)]
 NoRef == [t |-> "", f |-> TRUE, c |-> 0, n |-> ""]
 Sub(parent, child) == [kind |-> "subtype", parent |-> parent, child |-> child, node |-> "", ref |-> NoRef]
 Ref(nd, r)         == [kind |-> "ref", parent |-> "", child |-> "", node |-> nd, ref |-> r]
-Adds == << \* phase 1: a new reference type R5 below R1 (R0 > R1 > R5) and a first reference of that type
-           << Sub("R1", "R5"),
-              Ref("B", [t |-> "R5", f |-> TRUE, c |-> 1, n |-> "TObj"]) >>,
-           \* phase 2: the existing type R4 becomes a subtype of R2; E gets its first reference; A one of type R5
-           << Sub("R2", "R4"),
-              Ref("E", [t |-> "R3", f |-> TRUE, c |-> 2, n |-> "TVar"]),
-              Ref("A", [t |-> "R5", f |-> FALSE, c |-> 4, n |-> "TMeth"]) >> >>
-Apply(sp, a) == IF a.kind = "subtype" THEN AddSubtype(sp, a.parent, a.child) ELSE AddRef(sp, a.node, a.ref)
+\* a client reads the attributes (NodeClass, BrowseName, DisplayName, Description, Value, ...) of a node:
+\* reading changes nothing
+Read(nd)           == [kind |-> "read", parent |-> "", child |-> "", node |-> nd, ref |-> NoRef]
+ReadAll == << Read("TObj"), Read("XTVar"), Read("TMeth"), Read("XTOType"), Read("TVType"), Read("XTRType"),
+              Read("TDType"), Read("XTView"), Read("A"), Read("B"), Read("XC"), Read("E"),
+              Read("R0"), Read("R1"), Read("XR2"), Read("XR3"), Read("R4") >>
+Adds == << \* phase 1: clients read everything; a new reference type XR5 (ns2) below R1 (ns1) and a first
+           \* reference of that type; references of a namespace-0 type (added with Node.AddRef, which
+           \* takes the class from the target node) to targets of several classes
+           ReadAll \o
+           << Sub("R1", "XR5"),
+              Ref("B", [t |-> "XR5", f |-> TRUE, c |-> 1, n |-> "TObj"]),
+              Ref("B", [t |-> HP, f |-> TRUE,  c |-> 4,  n |-> "TMeth"]),
+              Ref("E", [t |-> HP, f |-> TRUE,  c |-> 2,  n |-> "XTVar"]),
+              Ref("XC", [t |-> HP, f |-> FALSE, c |-> 16, n |-> "TVType"]) >>,
+           \* phase 2: the existing type R4 (ns1) becomes a subtype of XR2 (ns2); more references
+           ReadAll \o
+           << Sub("XR2", "R4"),
+              Ref("E", [t |-> "XR3", f |-> TRUE, c |-> 2, n |-> "XTVar"]),
+              Ref("A", [t |-> "XR5", f |-> FALSE, c |-> 4, n |-> "TMeth"]),
+              Ref("E", [t |-> HP, f |-> FALSE, c |-> 32, n |-> "XTRType"]),
+              Ref("A", [t |-> HP, f |-> TRUE,  c |-> 64, n |-> "TDType"]) >> >>
+Apply(sp, a) == CASE a.kind = "subtype" -> AddSubtype(sp, a.parent, a.child)
+                  [] a.kind = "ref"     -> AddRef(sp, a.node, a.ref)
+                  [] OTHER              -> sp
 RECURSIVE ApplyAll(_, _)
 ApplyAll(sp, as) == IF as = <<>> THEN sp ELSE ApplyAll(Apply(sp, Head(as)), Tail(as))
 RECURSIVE SpaceAt(_)
-SpaceAt(p) == IF p = 0 THEN Space0 ELSE ApplyAll(SpaceAt(p - 1), Adds[p])
+Changes(p) == SelectSeq(Adds[p], LAMBDA a : a.kind # "read")
+SpaceAt(p) == IF p = 0 THEN Space0 ELSE ApplyAll(SpaceAt(p - 1), Changes(p))
 PhTypeIds  == SpaceAt(Phase).types
 PhChildSeq == SpaceAt(Phase).child
 PhNodeRefs == SpaceAt(Phase).refs
@@ -93,6 +131,6 @@ SpaceRow == [kind |-> "space", phase |-> Phase,
              adds |-> IF Phase = 0 THEN <<>> ELSE Adds[Phase],
              types |-> [t \in PhTypeIds |-> PhChildSeq[t]],
              nodes |-> PhNodeRefs,
-             targets |-> [c \in {1, 2, 4} |-> Target(c)]]
+             targets |-> [c \in {1, 2, 4, 8, 16, 32, 64, 128} |-> Target(c)]]
 ASSUME Emit => PrintT("ROW " \o ToJson(SpaceRow))
 =============================================================================
